@@ -261,6 +261,77 @@ def check_special(ctx, case):
                 ctx.known("K1", msg)
             else:
                 ctx.violation(msg, case, obligation=ob)
+    elif case["kind"] == "call_options":
+        # a single-step call with reset=True or from_state: the receiver must read the sender's state AS
+        # INSTALLED by the option (zero after a reset, the given state with from_state), for a sender
+        # downstream or upstream of the receiver
+        def run_case(position, v0):
+            if position == "upstream":
+                echo = Node(forward=lambda n, x: x * 1.0, initializer=dim_init)
+            else:
+                # a counter: emits its own previous output + 1, whatever it receives (one output)
+                def cnt_init(node, x=None, **kw):
+                    node.set_input_dim(x.shape[1])
+                    node.set_output_dim(1)
+                echo = Node(forward=lambda n, x: np.asarray(n.state()) + 1.0, initializer=cnt_init)
+            res = Reservoir(W=np.zeros((2, 2)), Win=np.zeros((2, 1)), Wfb=np.array([[1.], [0.]]), bias=np.zeros((2, 1)), activation="identity")
+            res <<= echo
+            m = (echo >> res) if position == "upstream" else (res >> echo)
+            x = lambda v: np.array([[float(v)]])
+            m.call(x(case["a"]))
+            m.call(x(case["b"]))
+            seen_reset = np.asarray(m.call(x(case["c"]), reset=True, return_states=[res.name])[res.name])[0, 0]
+            m.call(x(case["a"]))
+            seen_from = np.asarray(m.call(x(case["c"]), from_state={echo.name: x(v0)}, return_states=[res.name])[res.name])[0, 0]
+            m.call(x(case["b"]))
+            before = np.asarray(echo.state()).copy()
+            seen_stateless = np.asarray(m.call(x(case["c"]), from_state={echo.name: x(v0)}, stateful=False,
+                                               return_states=[res.name])[res.name])[0, 0]
+            restored = np.array_equal(np.asarray(echo.state()), before)
+            return float(seen_reset), float(seen_from), float(seen_stateless), restored
+        for position in ("upstream", "downstream"):
+            r = common.exc_class(run_case, position, case["v0"])
+            if r[0] != "ok":
+                ctx.violation(f"call with reset / from_state on a model with a {position} feedback sender raised {r[1]}", case, obligation=ob)
+                return
+            sr, sf, ss, restored = r[1]
+            if sr != 0.0:
+                ctx.violation(f"call(reset=True), {position} sender: the receiver read {sr} as feedback, expected 0 (the sender's state after the reset)", case, obligation=ob)
+                return
+            if sf != float(case["v0"]) or ss != float(case["v0"]):
+                ctx.violation(f"call(from_state={{sender: {case['v0']}}}), {position} sender: the receiver read {sf} (stateful) / {ss} (stateless) as feedback, "
+                              f"expected {case['v0']} (the state installed for the sender)", case, obligation=ob)
+                return
+            if not restored:
+                ctx.violation(f"call(from_state, stateful=False), {position} sender: the sender's state was not restored", case, obligation=ob)
+                return
+    elif case["kind"] == "train_learn_every":
+        # online training with learn_every > 1: at EVERY step (learning or not) the receiver reads the
+        # sender's output of the previous step
+        from reservoirpy.nodes import LMS, RLS
+
+        def run_case():
+            echo = Node(forward=lambda n, x: x * 1.0, initializer=dim_init)
+            res = Reservoir(W=np.zeros((2, 2)), Win=np.zeros((2, 1)), Wfb=np.array([[1.], [0.]]), bias=np.zeros((2, 1)), activation="identity")
+            res <<= echo
+            ro = (LMS if case["rule"] == "lms" else RLS)(1)
+            m = (echo >> res >> ro) if case["position"] == "upstream" else (res >> ro >> echo if case["position"] == "downstream" else (res >> ro) & (echo >> res))
+            T = case["T"]
+            X = np.arange(1, T + 1, dtype=float).reshape(-1, 1) * case["scale"]
+            Y = np.zeros((T, 1))
+            out = m.train(X, Y, learn_every=case["learn_every"], force_teachers=case["force_teachers"], return_states=[res.name, echo.name])
+            return np.asarray(out[res.name])[:, 0], np.asarray(out[echo.name])[:, 0]
+        r = common.exc_class(run_case)
+        if r[0] != "ok":
+            ctx.violation(f"Model.train(learn_every={case['learn_every']}) on a model with feedback raised {r[1]}", case, obligation=ob)
+            return
+        seen, sent = r[1]
+        want = np.concatenate([[0.0], sent[:-1]])
+        if not np.array_equal(seen, want):
+            t = int(np.argmax(seen != want))
+            ctx.violation(f"Model.train(learn_every={case['learn_every']}, force_teachers={case['force_teachers']}), sender {case['position']}: at step {t} the receiver read "
+                          f"{seen[t]} as feedback, expected the sender's output of step {t - 1} = {want[t]} (read {seen.tolist()}, sender emitted {sent.tolist()})",
+                          case, obligation=ob)
     elif case["kind"] == "k10_list_senders":
         def run_case():
             r = Reservoir(W=np.zeros((4, 4)), Win=np.zeros((4, 2)), bias=np.zeros((4, 1)), activation="identity", Wfb=lambda *s, **k: np.ones(s))
@@ -286,7 +357,7 @@ def check_special(ctx, case):
 
 
 def check_case(ctx, case):
-    if case.get("kind") in ("k1_submodel_sender", "k10_list_senders"):
+    if case.get("kind") in ("k1_submodel_sender", "k10_list_senders", "call_options", "train_learn_every"):
         return check_special(ctx, case)
     common.quiet()
     _BUFS.clear()
@@ -425,6 +496,11 @@ def run(ctx):
         check_case(ctx, c)
     for _ in range(ctx.n(150, 2000)):
         check_case(ctx, gen_case(g))
+    for _ in range(ctx.n(12, 120)):
+        check_case(ctx, {"kind": "call_options", "a": g.randint(1, 9), "b": g.randint(10, 19), "c": g.randint(20, 29), "v0": g.choice([42, -7, 0.5, 3])})
+        check_case(ctx, {"kind": "train_learn_every", "rule": g.choice(["lms", "rls"]), "position": g.choice(["upstream", "downstream", "side"]),
+                         "T": g.randint(4, 9), "scale": g.choice([1.0, 0.5, 2.0]), "learn_every": g.choice([1, 2, 3, 4]),
+                         "force_teachers": g.chance(0.5)})
     # forced by target values during offline fitting (second sentence of the property): the
     # teacher-forced fit cases of C06's harness (feedback from a readout of the same or of a later stage)
     from . import c06
